@@ -6,7 +6,7 @@ from .common import *
 from .detectors import SPECS, gen_case
 
 ID = "C17"
-PROPS = ["Prop_C17"]
+PROPS = ["Prop_C17", "Prop_C17_adwin"]
 IMPORTS = c01.IMPORTS
 CORR_NAME = "Corr_C17: the models whose monotonicity theorems are proved (DDM, EDDM, STEPD, CUSUM, PageHinkley) and ADWIN / LFR = the implementation, under both settings of every pair"
 TRUSTED = ["Coq 8.16.1 kernel + vm_compute + primitive floats",
